@@ -60,25 +60,27 @@ Fixpoint chain_grow_c (fuel : nat) (s : lstate T) (M : cmat T)
       else chain_grow_c f s M chain1 a' b' mn2 cnt2
   end.
 
+Definition chain_start_c (s : lstate T) (M : cmat T) (cnt : N) : res (list nat * nat * nat * T * N) :=
+  if length (st_chain s) <? 4 then
+    do live <- a_iter (st_active s);
+    do a <- opt_unwrap (hd_error live);
+    do b <- opt_unwrap (nth_error live 1);
+    do mn <- mget p M a b;
+    do xs <- a_above (st_active s) b;
+    do '(mn', b', c') <- mfold (nn_scan_c M (fun _ => a) (fun x => x)) xs (mn, b, (cnt + 1)%N);
+    Ok ([a], a, b', mn', c')
+  else
+    let c1 := removelast (removelast (st_chain s)) in
+    do b <- vlast c1 1;
+    let c2 := removelast c1 in
+    do a <- vlast c2 1;
+    do mn <- (if a <? b then mget p M a b else mget p M b a);
+    Ok (c2, a, b, mn, (cnt + 1)%N).
+
 Definition chain_iter_c (meth : method) (acc : lstate T * dend T * cmat T * N) (_ : nat)
   : res (lstate T * dend T * cmat T * N) :=
   let '(s, d, M, cnt) := acc in
-  do '(chain0, a0, b0, mn0, cnt0) <-
-    (if length (st_chain s) <? 4 then
-       do live <- a_iter (st_active s);
-       do a <- opt_unwrap (hd_error live);
-       do b <- opt_unwrap (nth_error live 1);
-       do mn <- mget p M a b;
-       do xs <- a_above (st_active s) b;
-       do '(mn', b', c') <- mfold (nn_scan_c M (fun _ => a) (fun x => x)) xs (mn, b, (cnt + 1)%N);
-       Ok ([a], a, b', mn', c')
-     else
-       let c1 := removelast (removelast (st_chain s)) in
-       do b <- vlast c1 1;
-       let c2 := removelast c1 in
-       do a <- vlast c2 1;
-       do mn <- (if a <? b then mget p M a b else mget p M b a);
-       Ok (c2, a, b, mn, (cnt + 1)%N));
+  do '(chain0, a0, b0, mn0, cnt0) <- chain_start_c s M cnt;
   do '(chain1, a1, b1, mn1, cnt1) <- chain_grow_c (chain_fuel M) s M chain0 a0 b0 mn0 cnt0;
   let '(a, b) := if b1 <? a1 then (b1, a1) else (a1, b1) in
   let s1 := st_with_chain s chain1 in
